@@ -186,8 +186,11 @@ def check_case(case) -> Result:
         backend = MPSBackend(seq, config=cfg)
         res = cut(backend.run)
         if case["seed"] % 3 == 0:  # history: the second run of the same backend object is the one judged
+            first, first_occ = res, [e2e.to_np(x).copy() for x in res.occupation]
             res = cut(backend.run)
             r.label("second_run_of_the_same_backend")
+            if any(np.abs(e2e.to_np(a) - b).max() > 0 for a, b in zip(first.occupation, first_occ)):
+                r.fail("second_run_changed_the_first_results", "occupations of the Results returned by the first run changed during the second run")
     if init_before is not None:
         ch = float(np.abs(tn.mps_to_dense(cfg.initial_state.factors) - init_before).max())
         if ch > 1e-12:
